@@ -289,6 +289,9 @@ func GenPricing(t *rapid.T, nowNs int64) string { return GenPricingIn(t, nowNs, 
 // rarely when it does not (such a provider cannot be priced and never qualifies).
 func (g *GenState) genPriceDenom(t *rapid.T) string {
 	if !g.F.foreign {
+		if pct(t, "price_in_main_unit", 12) {
+			return "kstake"
+		}
 		return "stake"
 	}
 	if pct(t, "foreign_price", g.F.ForeignPricePct) {
@@ -300,6 +303,10 @@ func (g *GenState) genPriceDenom(t *rapid.T) string {
 // GenPricingIn draws a pricing text quoted in the given token.
 func GenPricingIn(t *rapid.T, nowNs int64, denom string) string {
 	price := rapid.SampledFrom([]string{"10", "1", "0", "2", "20", "3", "0.5", "1.9", "100", "999", "1000000"}).Draw(t, "price")
+	if denom == "kstake" {
+		// the same range of prices, quoted in the main unit (1 kstake = 1000 stake)
+		price = rapid.SampledFrom([]string{"0.01", "0.001", "0", "0.002", "0.02", "0.003", "0.0005", "0.0019", "0.1", "0.999", "1", "1000"}).Draw(t, "kprice")
+	}
 	var sb strings.Builder
 	fmt.Fprintf(&sb, `{"price":"%s%s"`, price, denom)
 	nt := rapid.SampledFrom([]int{0, 0, 1, 2, 3}).Draw(t, "n_time")
